@@ -26,6 +26,9 @@ import (
 //     ; B n k=v,k=~    OpenDB(db<n>).NewBatch(); Put/Delete...; Write()     (~ = delete)
 //     ; X n            s := OpenDB(db<n>); s.Close(); s.Drop()
 //     ; F id           producer.Flush(id)
+//     ; R              crash here (at this operation boundary): the producer is abandoned, a NEW SyncedPool /
+//                      flaggedproducer is created over the same databases and Initialize(names, nil)d; when that
+//                      fails (log marker Rerr) the application does not start and the rest of the history is skipped
 //
 // The producer under test (flushable.SyncedPool / flaggedproducer.Producer) runs over a
 // RECORDING kvdb.DBProducer (memorydb stores) that logs every durable operation:
@@ -36,7 +39,9 @@ import (
 // After every completed flush the logical contents (read through the producer's stores)
 // of every database are dumped: S:<n>=<k>:<v>,...;<n>=...
 //
-// Observation:  LOG <log tokens> ; V <verdict per prefix 0..L> ; S <snapshot per flush> ; R<0|1>
+// Before every flush the same dump is taken (without the flush-ID key): Q:<n>=...;...
+// For every prefix Initialize is also run with an EXPECTED flush ID (the mark of flush k mod (#flushes+1), or 00eeee): X section.
+// Observation:  LOG <log tokens> ; V <verdict per prefix 0..L> ; S <snapshot per flush> ; Q <pre-flush dump per flush> ; X <verdict with expected ID per prefix> ; R<0|1>
 // (R1: the live databases at the end equal the replay of the whole log.)
 
 type c25World struct {
@@ -134,11 +139,17 @@ func (b *c25Batch) Write() error {
 }
 func (b *c25Batch) Reset() { b.writes = nil; b.sizeV = 0; b.Batch.Reset() }
 
-func c25Dump(db kvdb.Store) string {
+func c25Dump(db kvdb.Store) string { return c25DumpExcept(db, nil) }
+
+// c25DumpExcept dumps all pairs but the one stored under key skip (nil: nothing skipped)
+func c25DumpExcept(db kvdb.Store, skip []byte) string {
 	var parts []string
 	it := db.NewIterator(nil, nil)
 	defer it.Release()
 	for it.Next() {
+		if skip != nil && bytes.Equal(it.Key(), skip) {
+			continue
+		}
 		parts = append(parts, vu.Hex(it.Key())+":"+vu.Hex(it.Value()))
 	}
 	return strings.Join(parts, ",")
@@ -177,14 +188,14 @@ func c25Apply(w *c25World, t string) {
 	}
 }
 
-func c25Recover(mode string, w *c25World, fk []byte) string {
+func c25Recover(mode string, w *c25World, fk []byte, expected []byte) string {
 	var id []byte
 	var err error
 	names := w.Names()
 	if mode == "pool" {
-		id, err = flushable.NewSyncedPool(w, fk).Initialize(names, nil)
+		id, err = flushable.NewSyncedPool(w, fk).Initialize(names, expected)
 	} else {
-		id, err = flaggedproducer.Wrap(w, fk).Initialize(names, nil)
+		id, err = flaggedproducer.Wrap(w, fk).Initialize(names, expected)
 	}
 	if err != nil {
 		m := err.Error()
@@ -228,13 +239,49 @@ func c25Run(in []string) []string {
 	} else {
 		prod = flaggedproducer.Wrap(w, fk)
 	}
-	var snaps []string
+	var snaps, pres []string
+	openNames := func() []string {
+		var names []string
+		if pool != nil {
+			names = pool.Names()
+		} else {
+			names = w.Names()
+		}
+		sort.Slice(names, func(i, j int) bool {
+			a, _ := strconv.Atoi(c25Num(names[i]))
+			b, _ := strconv.Atoi(c25Num(names[j]))
+			return a < b
+		})
+		return names
+	}
+	dead := false
 	for _, o := range ops {
-		if len(o) == 0 {
+		if len(o) == 0 || dead {
 			continue
 		}
 		vu.Stat(mode + "_" + o[0])
 		switch o[0] {
+		case "R":
+			before := len(w.log)
+			var err error
+			if mode == "pool" {
+				pool = flushable.NewSyncedPool(w, fk)
+				prod = pool
+				_, err = pool.Initialize(w.Names(), nil)
+			} else {
+				fp := flaggedproducer.Wrap(w, fk)
+				prod = fp
+				_, err = fp.Initialize(w.Names(), nil)
+			}
+			if err != nil {
+				// the opens of the failed Initialize change nothing; the history ends here
+				w.log = append(w.log[:before], "Rerr")
+				dead = true
+				vu.Stat(mode + "_restart_refused")
+			} else {
+				w.log = append(append(append([]string{}, w.log[:before]...), "R"), w.log[before:]...)
+				vu.Stat(mode + "_restart_ok")
+			}
 		case "O":
 			_, _ = prod.OpenDB(c25Name(o[1]))
 		case "U":
@@ -268,6 +315,16 @@ func c25Run(in []string) []string {
 			_ = s.Close()
 			s.Drop()
 		case "F":
+			// the user-visible contents of every open database BEFORE the flush, read through the
+			// producer (for the pool: the cache over the underlying database), flush-ID key left out
+			w.quiet = true
+			var pre []string
+			for _, n := range openNames() {
+				s, _ := prod.OpenDB(n)
+				pre = append(pre, c25Num(n)+"="+c25DumpExcept(s, fk))
+			}
+			w.quiet = false
+			pres = append(pres, "Q:"+strings.Join(pre, ";"))
 			w.log = append(w.log, "F")
 			if err := prod.Flush(vu.UnHex(o[1])); err != nil {
 				w.log = append(w.log, "ferr")
@@ -275,19 +332,8 @@ func c25Run(in []string) []string {
 			w.log = append(w.log, "f")
 			// logical contents of every open database, read through the producer
 			w.quiet = true
-			var names []string
-			if pool != nil {
-				names = pool.Names()
-			} else {
-				names = w.Names()
-			}
-			sort.Slice(names, func(i, j int) bool {
-				a, _ := strconv.Atoi(c25Num(names[i]))
-				b, _ := strconv.Atoi(c25Num(names[j]))
-				return a < b
-			})
 			var parts []string
-			for _, n := range names {
+			for _, n := range openNames() {
 				s, _ := prod.OpenDB(n)
 				parts = append(parts, c25Num(n)+"="+c25Dump(s))
 			}
@@ -298,10 +344,17 @@ func c25Run(in []string) []string {
 	// ---- crash at every prefix of the durable log
 	var durable []string
 	for _, t := range w.log {
-		if t != "F" && t != "f" && t != "ferr" {
+		if t != "F" && t != "f" && t != "ferr" && t != "R" && t != "Rerr" {
 			durable = append(durable, t)
 		}
 	}
+	var flushIDs [][]byte // of the flushes that were executed (none after a refused restart)
+	for _, o := range ops {
+		if len(o) == 2 && o[0] == "F" && len(flushIDs) < len(snaps) {
+			flushIDs = append(flushIDs, vu.UnHex(o[1]))
+		}
+	}
+	var xverd []string
 	obs := []string{"LOG"}
 	obs = append(obs, w.log...)
 	obs = append(obs, ";", "V")
@@ -311,8 +364,16 @@ func c25Run(in []string) []string {
 		for _, t := range durable[:k] {
 			c25Apply(cw, t)
 		}
-		v := c25Recover(mode, cw, fk)
+		v := c25Recover(mode, cw, fk, nil)
 		obs = append(obs, v)
+		// the same with an expected flush ID: the mark of flush (k mod (#flushes+1)), or a bogus one
+		exp := []byte{0x00, 0xee, 0xee}
+		if j := k % (len(flushIDs) + 1); j < len(flushIDs) {
+			exp = append([]byte{0x00}, flushIDs[j]...)
+		}
+		xv := c25Recover(mode, cw, fk, exp)
+		xverd = append(xverd, xv)
+		vu.Stat("expected_verdict_" + xv[:1])
 		if v[0] == 'E' {
 			vu.Stat("verdict_" + v)
 		} else {
@@ -335,6 +396,10 @@ func c25Run(in []string) []string {
 			}
 			obs = append(obs, ";", "S")
 			obs = append(obs, snaps...)
+			obs = append(obs, ";", "Q")
+			obs = append(obs, pres...)
+			obs = append(obs, ";", "X")
+			obs = append(obs, xverd...)
 			obs = append(obs, ";", "R"+vu.B(same))
 		}
 	}
@@ -364,9 +429,9 @@ func c25Val(r *rand.Rand) string {
 }
 
 // exhaustive small scope (thorough tier): every history of up to 4 operations over the alphabet
-// {put db0, put db1, delete db0, drop db0, drop db1, GetUnderlying db1, flush}, closed by a flush, in both modes
+// {put db0, put db1, delete db0, drop db0, drop db1, GetUnderlying db1, flush, restart}, closed by a flush, in both modes
 func c25Exhaustive(emit func(...string)) {
-	alpha := [][]string{{"P", "0", "61", "31"}, {"P", "1", "61", "32"}, {"D", "0", "61"}, {"X", "0"}, {"X", "1"}, {"U", "1"}, {"F"}}
+	alpha := [][]string{{"P", "0", "61", "31"}, {"P", "1", "61", "32"}, {"D", "0", "61"}, {"X", "0"}, {"X", "1"}, {"U", "1"}, {"F"}, {"R"}}
 	var rec func(mode string, depth int, cur [][]string)
 	rec = func(mode string, depth int, cur [][]string) {
 		if len(cur) > 0 {
@@ -452,7 +517,11 @@ func c25Gen(r *rand.Rand, n int, tier string, emit func(...string)) {
 					in = append(in, "B", db, strings.Join(ws, ","))
 				}
 			case x < 18:
-				in = append(in, "X", db)
+				if r.Intn(3) == 0 {
+					in = append(in, "R")
+				} else {
+					in = append(in, "X", db)
+				}
 			default:
 				flushes++
 				id := fmt.Sprintf("%02x", flushes)
@@ -491,8 +560,6 @@ func c25Gen(r *rand.Rand, n int, tier string, emit func(...string)) {
 		emit(in...)
 	}
 }
-
-var _ = bytes.Equal
 
 func init() {
 	vu.Register("C25", &vu.Prop{Gen: c25Gen, Run: c25Run})
